@@ -43,7 +43,7 @@ def run(ctx: Ctx) -> None:
     ctx.units["callbacks_never_called"] = dead
 
     # ---- abstract transformer --------------------------------------------------------------------
-    X = xform.AbstractTransformer(e, include_position=False)
+    X = xform.AbstractTransformer(e, include_position=False, deep=ctx.tier == "thorough", rounds=3 if ctx.tier == "thorough" else 2)
     X.run()
     ctx.units.update({"callback_evaluations": len(X.all_evals), "labels_evaluated": len(X.results), "pai_paths": X.I.paths_run})
     block_types = set()
